@@ -19,6 +19,22 @@ WHAT = {
  "C14-mut1": "`wall = next` (search resumes from the shifted instant)", "C14-mut2": "after-prev check dropped from fires()", "C14-mut3": "offset looked up at the reading taken as UTC (no correction step)",
  "C16-mut1": "response stored only on success (stale OK after a transport error)", "C16-mut2": "goroutine leaked per cancelled shell execution", "C16-mut3": "status flips to Failure when the next execution starts",
  "C17-mut1": "plain Store instead of defer (panic shuts the gate)", "C17-mut2": "Swap split into Load + Store", "C17-mut3": "early return for a dead context between claim and defer",
+ "C01-r2-mut1": "re-validation loop capped at 12 passes", "C01-r2-mut2": "L/W/# target day memoised per month (year not in the key)",
+ "C01-r2-mut3": "membership fast path `last-first == len-1 ⇒ range` (the parser keeps duplicates: `1-3,3,5`)",
+ "C03-r2-mut1": "failed reschedule pushes the popped entry back and still runs it", "C03-r2-mut2": "not-due check hoisted out of the lock (Head() pre-check), guard in validateJob dropped",
+ "C03-r2-mut3": "queue lock released while the trigger is asked", "C04-r2-mut1": "`fireTime + threshold < now` (overflows for a MaxInt64 threshold)",
+ "C04-r2-mut2": "misfire offer moved behind the successful re-base (last fire time never offered)", "C04-r2-mut3": "next fire time clamped to the clock",
+ "C05-r2-mut1": "started flag read before the queue lock in ScheduleJob/ResumeJob", "C05-r2-mut2": "Replace stores into the old heap slot without heap.Fix",
+ "C05-r2-mut3": "honest-empty size check of d8c40f6 removed (every empty Pop backs off; = the regression of 78e46a3)",
+ "C08-r2-mut1": "queue lock released while the trigger is asked", "C08-r2-mut2": "buffered per-run dispatch channel, backlog dropped at shutdown",
+ "C08-r2-mut3": "two cooperating edits drop both suspended guards", "C09-r2-mut1": "`JobKey.Equals` via `String()`", "C09-r2-mut2": "registry lock released while the trigger is asked",
+ "C09-r2-mut3": "Suspended flipped only after the Push (copying queue records the old flag)", "C10-r2-mut1": "ScheduleJob holds mtx.RLock across IsStarted (recursive read lock: deadlock with Stop/Start)",
+ "C10-r2-mut2": "CurlJob binds the context once (stale context after a restart)", "C10-r2-mut3": "loop ignores ctx while Size() fails",
+ "C11-r2-mut2": "ScheduledJobs filters an aliased slice outside the lock", "C11-r2-mut3": "Replace inserts the new entry before removing the old one (stale heap index)",
+ "C12-r2-mut1": "retries run in a goroutine of their own (outside the bound)", "C12-r2-mut2": "recover moved to the caller (a panic ends the worker)",
+ "C12-r2-mut3": "WorkerLimit arm before BlockingExecution arm", "C13-r2-mut1": "one retry timer re-armed when it fires (interval counted from the start of the previous attempt)", "C13-r2-mut2": "worker exits when a run's context is dead after an execution",
+ "C13-r2-mut3": "RetryInterval <= 0 skips the wait and the context re-check", "C15-r2-mut1": "failed reschedule puts the fired job back unchanged (fire time taken twice)", "C15-r2-mut2": "an interrupt clears the back-off deadline",
+ "C15-r2-mut3": "ResumeJob clears the suspended flag before the Remove that may fail", "C16-r2-mut1": "CurlJob stops releasing responses of unknown length", "C16-r2-mut2": "ShellJob output buffers shared between executions", "C16-r2-mut3": "CurlJob binds the context once",
  "C18-mut1": "lock released before Output", "C18-mut2": "message used as format string", "C18-mut3": "slog threshold cached at construction with an off-by-one probe",
 }
 rows = []
